@@ -107,6 +107,15 @@ func raceSite(block string) string {
 	if strings.Contains(acc, "schemes/enc/v1.readHeader") || strings.Contains(acc, "schemes/enc/v1.processSegments") {
 		return "enc-v1-bufpool"
 	}
+	if strings.Contains(acc, "c08.containerMutator") || strings.Contains(acc, "c08.containerReader") {
+		return "returned-container" // two callers of a look-up touch the same slice
+	}
+	if strings.Contains(acc, "kit/crypto/aescbcaead.") {
+		return "aescbcaead-shared-aead"
+	}
+	if strings.Contains(acc, "kit/crypto/aeskw.") {
+		return "aeskw-shared-block"
+	}
 	if strings.Contains(acc, "kit/logger.ApplyOptionsToLoggers") || strings.Contains(acc, "kit/logger.getLoggers") || strings.Contains(acc, "kit/logger.NewLogger") {
 		return "logger-registry"
 	}
@@ -183,6 +192,8 @@ func findingKey(why string, reset tv.M, evLine tv.M) string {
 		return "bytepool:live-slice-content-lost"
 	case why == "Get returned a non-empty slice":
 		return "bytepool:get-returned-non-empty-slice"
+	case strings.HasPrefix(why, "concurrent result-of:"):
+		return "shared-result:" + strings.TrimPrefix(strings.Fields(why)[1], "result-of:")
 	case strings.HasPrefix(why, "concurrent logger-output "):
 		return "logger:output-differs-from-alone-run"
 	case strings.HasPrefix(why, "concurrent "):
@@ -472,7 +483,8 @@ func TestCheck(t *testing.T) {
 	// (the millions of cheap pool cycles and calc calls of the background load are reported separately, not counted here)
 	evals := counts["seq_pipelines"] + 2*counts["two_stream_scenarios"] + counts["gated_pipelines"] + counts["free_pipelines"] +
 		counts["registry_calls"] + counts["bytepool_seq_cases"] + counts["bytepool_resize_cases"] + counts["cron_name_calls"] +
-		counts["logwalk_new_names"] + counts["logwalk_walks"] + counts["crypto_shared_calls"] + logCompared
+		counts["logwalk_new_names"] + counts["logwalk_walks"] + counts["crypto_shared_calls"] + logCompared +
+		counts["returned_container_calls"] + counts["shared_aead_calls"] + counts["shared_block_calls"]
 	e.Set("evaluations", evals)
 	e.Set("rule", "every case = one operation on the real code whose result is compared with the same operation run alone: "+
 		"(a) one Encrypt->Decrypt pipeline alone with every BufPool.Put overwriting the buffer with a poison pattern (2 ciphers x message lengths 0/1/100/65535/65536/65537 (+128K, 128K+1, 300K thorough) x 6 ways the header reaches readHeader (one read, 3 pieces, byte-wise, +1/+37/all payload bytes in the header's read) x key-wrap algorithms (ident, A256KW, A256CBC-NOPAD, A128CBC-NOPAD, RSA-OAEP-256 through kit/crypto; rotating in quick, all in thorough)), and the same without poison; "+
@@ -487,6 +499,8 @@ func TestCheck(t *testing.T) {
 		"(j) logger registry walks: rounds in which one goroutine runs ApplyOptionsToLoggers in a loop while 6 goroutines register 80 never-seen names each, in a process of their own; a fatal concurrent-map error or race report becomes a race trace; "+
 		"(k) logger output bytes: 6 loggers (buffer/file/pseudo-terminal output x text/JSON, different levels and app ids) running a fixed script of log calls, each alone in its own process and together in 12 orders of first use (every logger first once, every pair in both orders; thorough: + all 24 orders of 4), sequentially and then concurrently; timestamps stripped; bytes must equal the alone run; "+
 		"(l) crypto decrypts sharing one ciphertext slice: 9 algorithms; second decrypt, attempt with another key then retry, ciphertext unchanged, first result unchanged; 6 goroutines x 20 decrypts of one shared slice with the right / another key. "+
+		"(m) look-ups that return a slice (crypto.Supported{Symmetric,Asymmetric,Signature}Algorithms, Cron.Entries): caller A sorts / overwrites / appends within capacity / truncates what it got, caller B's later result and the results of 3 readers running against 3 such callers must equal the result of the call made alone; "+
+		"(n) one cipher.AEAD from each of the 4 aescbcaead constructors, and one cipher.Block for aeskw.Wrap/Unwrap (3 key sizes), used by 8 goroutines with 6 messages/nonces each, 25 times: Seal/Wrap output and Open/Unwrap result must equal those of the calls made alone (panics recovered and reported as results). "+
 		"non-trivial = a pipeline scenario with at least two pipelines, or a single pipeline under poison; a ByteSlicePool case in which the slice was really recycled; distinct by scenario parameters (and schedule for gated runs)")
 	fmt.Printf("recorded %d runs, %d events, %d race report site(s)\n", b.Len(), b.Lines(), len(sites))
 	if b.Len() == 0 {
